@@ -261,7 +261,16 @@ def run_property(pid, tier="quick", seed=0, update_ledger=False, verbose=False):
                     continue
                 violations.append((fn, v["clause"], {"model": None, "where": r["file"], "text": v.get("text"), "bounded": True, "native": v}))
         for nm, o in refuted_names.items():
-            in_ledger = ledger is not None and nm in ledger.get("functions", {}).get(fn, [])
+            lnames = ledger.get("functions", {}).get(fn, []) if ledger is not None else []
+            in_ledger = nm in lnames
+            if not in_ledger and nm.startswith("family/"):
+                # family obligations are renamed when the emitted model changes shape: match by family
+                base = nm.split("#")[0]
+                for suf in ("/guard", "/body", "/missing", "/unexpected"):
+                    if base.endswith(suf):
+                        base = base[: -len(suf)]
+                in_ledger = any(l == base or l.startswith(base + "#") or l.startswith(base + "/") for l in lnames) \
+                    or (nm.endswith("/unexpected") and any(l.startswith("family/") for l in lnames))
             if not in_ledger and not update_ledger:
                 undecided.append(f"{fn}/{nm}: refuted, but the obligation is not in the committed ledger (contract/code shape changed)")
                 continue
@@ -280,7 +289,14 @@ def run_property(pid, tier="quick", seed=0, update_ledger=False, verbose=False):
                 if not any(fn in u for u in undecided) and not any(fn in c for c in crashed):
                     undecided.append(f"{fn}: in the ledger but not run")
                 continue
-            missing = [n for n in names if n not in cur]
+            def fam_base(n):
+                b = n.split("#")[0]
+                for suf in ("/guard", "/body", "/missing", "/unexpected"):
+                    if b.endswith(suf):
+                        b = b[: -len(suf)]
+                return b
+            cur_bases = {fam_base(n) for n in cur if n.startswith("family/")}
+            missing = [n for n in names if n not in cur and not (n.startswith("family/") and fam_base(n) in cur_bases)]
             if missing:
                 undecided.append(f"{fn}: obligations missing relative to the ledger: {missing[:6]}")
     for b in bounded_results:
